@@ -1,6 +1,7 @@
 (* Proofs/EditsP.v — the splice algebra: the reverse-order loop of apply.rs computes the
    left-to-right reference splice on every well-formed edit list; stale edits are rejected. *)
 From RN Require Import Base.Bytes Model.Edits.
+From Coq Require Import Permutation.
 
 Lemma apply_rev_aux_app orig l1 l2 acc :
   apply_rev_aux orig (l1 ++ l2) acc =
@@ -144,11 +145,11 @@ Proof. destruct s; cbn; auto. Qed.
 
 (* apply_edits_rev_spec: the loop of apply.rs equals the reference splice on every
    well-formed edit list (any number of edits, any lengths) *)
-Theorem apply_edits_rev_spec orig es :
+Theorem apply_edits_pos_spec orig es :
   head_ok orig = true -> wf_edits orig es = true ->
-  apply_edits_rev orig es = Ok (spec_splice orig es).
+  apply_edits_pos orig es = Ok (spec_splice orig es).
 Proof.
-  intros Hh Hwf. unfold apply_edits_rev, spec_splice.
+  intros Hh Hwf. unfold apply_edits_pos, spec_splice.
   rewrite (apply_rev_main orig es 0 Hwf); [reflexivity | lia | apply char_boundary_0; exact Hh].
 Qed.
 
@@ -172,10 +173,82 @@ Proof.
   apply IH. exact H.
 Qed.
 
+Theorem apply_edits_pos_mismatch orig es :
+  existsb (fun e => negb (edit_matches orig e)) es = true ->
+  forall r, apply_edits_pos orig es <> Ok r.
+Proof.
+  intros H r. unfold apply_edits_pos. apply apply_rev_aux_mismatch.
+  rewrite existsb_rev. exact H.
+Qed.
+
+(* ---- the sort and the overlap pre-check in front of the loop ---- *)
+Lemma wf_ordered orig : forall es pos, wf_edits_from orig pos es = true -> ordered_from pos es = true.
+Proof.
+  induction es as [|e es IH]; intros pos H; [reflexivity|].
+  cbn [wf_edits_from] in H. cbn [ordered_from].
+  apply andb_true_iff in H as [H Hrest]. apply andb_true_iff in H as [H _].
+  apply andb_true_iff in H as [Hle Hsl].
+  destruct (str_slice orig (e_start e) (e_stop e)) as [a|] eqn:Es; [|discriminate].
+  apply str_slice_some in Es as (Hab & _).
+  rewrite Hle, (IH _ Hrest). replace (Nat.leb (e_start e) (e_stop e)) with true; [reflexivity|].
+  symmetry. apply Nat.leb_le. exact Hab.
+Qed.
+
+Lemma ordered_from_weaken : forall es p q, (q <= p)%nat -> ordered_from p es = true -> ordered_from q es = true.
+Proof.
+  intros [|e es] p q Hq H; [reflexivity|]. cbn [ordered_from] in *.
+  apply andb_true_iff in H as [H Hr]. apply andb_true_iff in H as [H1 H2].
+  apply Nat.leb_le in H1. rewrite H2, Hr.
+  replace (Nat.leb q (e_start e)) with true; [reflexivity|]. symmetry. apply Nat.leb_le. lia.
+Qed.
+
+(* the sort leaves an ordered list as it is (so the fix changes nothing on plans the scanner produces) *)
+Lemma sort_ordered_id : forall es pos, ordered_from pos es = true -> sort_edits es = es.
+Proof.
+  induction es as [|e es IH]; intros pos H; [reflexivity|].
+  cbn [ordered_from] in H. apply andb_true_iff in H as [H Hr]. apply andb_true_iff in H as [_ H2].
+  apply Nat.leb_le in H2.
+  unfold sort_edits in *. cbn [fold_right]. rewrite (IH _ Hr).
+  destruct es as [|x es']; [reflexivity|].
+  cbn [ins_edit]. cbn [ordered_from] in Hr. apply andb_true_iff in Hr as [Hr _].
+  apply andb_true_iff in Hr as [Hr _]. apply Nat.leb_le in Hr.
+  replace (Nat.leb (e_start e) (e_start x)) with true; [reflexivity|]. symmetry. apply Nat.leb_le. lia.
+Qed.
+
+Lemma apply_edits_rev_ordered orig es :
+  ordered_from 0 es = true -> apply_edits_rev orig es = apply_edits_pos orig es.
+Proof. intros H. unfold apply_edits_rev. rewrite (sort_ordered_id es 0 H), H. reflexivity. Qed.
+
+Theorem apply_edits_rev_spec orig es :
+  head_ok orig = true -> wf_edits orig es = true ->
+  apply_edits_rev orig es = Ok (spec_splice orig es).
+Proof.
+  intros Hh Hwf. rewrite apply_edits_rev_ordered by (apply (wf_ordered orig); exact Hwf).
+  apply apply_edits_pos_spec; assumption.
+Qed.
+
+Lemma ins_edit_perm e l : Permutation.Permutation (e :: l) (ins_edit e l).
+Proof.
+  induction l as [|x l IH]; [apply Permutation.Permutation_refl|].
+  cbn [ins_edit]. destruct (Nat.leb (e_start e) (e_start x)); [apply Permutation.Permutation_refl|].
+  eapply Permutation.perm_trans; [apply Permutation.perm_swap|]. apply Permutation.perm_skip. exact IH.
+Qed.
+
+Lemma sort_edits_perm es : Permutation.Permutation es (sort_edits es).
+Proof.
+  induction es as [|e es IH]; [apply Permutation.perm_nil|].
+  unfold sort_edits in *. cbn [fold_right].
+  eapply Permutation.perm_trans; [apply Permutation.perm_skip; exact IH | apply ins_edit_perm].
+Qed.
+
+(* a plan with a stale edit anywhere (in any order) is never accepted *)
 Theorem apply_edits_rev_mismatch orig es :
   existsb (fun e => negb (edit_matches orig e)) es = true ->
   forall r, apply_edits_rev orig es <> Ok r.
 Proof.
-  intros H r. unfold apply_edits_rev. apply apply_rev_aux_mismatch.
-  rewrite existsb_rev. exact H.
+  intros H r. unfold apply_edits_rev.
+  destruct (ordered_from 0 (sort_edits es)); [|discriminate].
+  apply apply_edits_pos_mismatch.
+  apply existsb_exists in H as [e [Hin He]]. apply existsb_exists. exists e. split; [|exact He].
+  eapply Permutation.Permutation_in; [apply sort_edits_perm | exact Hin].
 Qed.
